@@ -608,7 +608,11 @@ def run_check(prop, tier, seed):
     outputs = {}
     exes = {}
     first = None
-    for prof in profiles:
+    profiles = list(profiles)
+    pi = 0
+    while pi < len(profiles):
+        prof = profiles[pi]
+        pi += 1
         exe = run.cargo_build(prof)
         if exe is None:
             continue
@@ -619,6 +623,12 @@ def run_check(prop, tier, seed):
         exes[prof] = (exe, PROFILE_FLAGS[prof][2])
         if first is None:
             first = (exe, PROFILE_FLAGS[prof][2])
+            if run.violations and not run.broken_obligations:
+                # the implementation left the model (the correspondence tie is broken) although every proof still checks:
+                # look at the other profiles as well — a plain operator only differs from a checked one without overflow checks
+                for extra_prof in list(cfg["profiles"][1]) + ["release"]:
+                    if extra_prof not in profiles:
+                        profiles.append(extra_prof)
     if prop == "C20" and len(outputs) > 1:
         base = profiles[0]
         for prof, impl in outputs.items():
